@@ -55,6 +55,10 @@ SEP = [
     "`ifdef A\n`else// c\nq`endif r\n", "`timescale 1ns/1ps// c\nx\n", "`celldefine/* c */x\n",
     "`define M(a) a/**/a\n`M(p)\n`M(/**/q)\n", "`define N x //tail\n`N y\n", "a`__LINE__/**/b\n",
     "`include \"i.svh\"// c\nx/**/y\n", "a// c\r\nb\n",
+    # a comment between a directive's keyword and its operand (rejected or not, both ways alike; if accepted the comment goes)
+    "`define FOO 1\n`undef /* retired */ FOO\n wire w;\n", "`default_nettype /* strict */ none\nx\n", "`timescale /* u */ 1ns / 1ps\nx\n",
+    "`pragma /* c */ name\nx\n", "`ifdef /* c */ A\ny\n`endif\nx\n", "`define BAR(a) a\n`BAR /* c */ (1)\n", "`celldefine /* c */\nx\n",
+    "`unconnected_drive /* c */ pull0\nx\n`nounconnected_drive\n", "`undef // c\n FOO\n",
     # a usage whose expansion is nothing but a comment, in front of an `include on the same line: the same verdict both ways
     "`define MARK /* nothing here */\n`MARK `include \"i.svh\"\n", "`define ID(x) x\n`ID(/* only a comment */) `include \"i.svh\"\n",
     "`define E\n`E `include \"i.svh\"\n", "`define MARK /* n */\nq\n`MARK\n`include \"i.svh\"\n", "`define C2 // c\n`C2 `include \"i.svh\"\n",
